@@ -320,6 +320,31 @@ def _judge_saved_state(sc):
     return None
 
 
+def _judge_first_use(rng, tag):
+    """a node that has already been run, wrapped in a NEW model whose very first operation is stateful=False: the node must come out
+    of that operation with the state it had"""
+    import reservoirpy as rpy
+    rpy.verbosity(0)
+    from reservoirpy.nodes import Reservoir, Tanh
+    W = scen.fl(scengen.mat(rng, 3, 3, 2, 2)); Win = scen.fl(scengen.mat(rng, 3, 1, 2, 1))
+    X = scen.fl(scengen.rows(rng, 5, 1))
+    sc = {"tag": tag, "kind": "first-use"}
+    try:
+        res = Reservoir(3, W=W, Win=Win, lr=0.5, input_bias=False, activation=scen.ACTS["id"], name="fu%s_res" % tag)
+        res.run(X[:4])
+        before = np.array(res.state(), dtype=float).copy()
+        m = res >> Tanh(name="fu%s_t" % tag)
+        m.run(X[4:], stateful=False)
+        after = np.array(res.state(), dtype=float)
+    except Exception as ex:  # noqa: BLE001
+        return _viol("first-use:exception", "wrapping a used node in a new model and running it stateless raises %r" % (ex,), sc)
+    if not np.array_equal(before, after):
+        return _viol("model-first-use:initialize-resets-used-nodes:stateless", "the first operation of a new model, run(stateful=False), changed the state of a node "
+                     "that had been run before it was linked (Model.initialize resets every node before the state snapshot is taken)", sc,
+                     before.tolist(), after.tolist())
+    return None
+
+
 def judge(case):
     sc = case["scenario"]
     return _judge(sc) or _judge_from_state(sc) or _judge_saved_state(sc)
@@ -338,6 +363,9 @@ def oracle(ctx, scale=1):
         v = _judge_esn(rng, "%d_%d" % (ctx.seed, i))
         if v:
             out.append(v)
+    v = _judge_first_use(rng, "%d" % ctx.seed)
+    if v:
+        out.append(v)
     return {"evaluations": n + ctx.n(3, 20), "violations": out,
             "rule": "on the real objects: stateless operations leave state() of every node unchanged (also when a node raises) and are repeatable; "
                     "reset()/reset=True equals a fresh copy; from_state equals setting the state first"}
@@ -348,5 +376,8 @@ def replay(payload):
     if sc.get("kind") == "esn":
         vs = [v for v in (_judge_esn(core.random.Random(i), "rp%d" % i) for i in range(4)) if v]
         return {"violates": bool(vs), "detail": vs[:1]}
+    if sc.get("kind") == "first-use":
+        v = _judge_first_use(core.random.Random(0), "rpf")
+        return {"violates": bool(v), "detail": v}
     v = _judge(sc) or _judge_from_state(sc) or _judge_saved_state(sc)
     return {"violates": bool(v), "detail": v}
